@@ -644,6 +644,7 @@ def step (s : DState) (line : String) : DState × String :=
   | ["ctrace", evs, answers] => (s, ctraceLine evs answers)
   | ["msave"] => plain { s with saved := s.saved.push s.ms.msg, ms := { s.ms with msg := Msg.new 272 4 0 0 0 } } "ok"
   | ["mclear"] => plain { s with saved := #[] } "ok"
+  | ["envchild", _, _, _] => plain s "ok"         -- a frame that is fine under the built-in dictionary, in a fresh process
   | ["env", _, _] => plain s "."                -- environment variables of the process: invisible to the model
   | ["freeze"] => plain { s with frozen := some s.ms.dict } "."
   | ["fbyname", n] =>
